@@ -1394,8 +1394,18 @@ impl<'e> Runner<'e> {
         let wc = &wire_session[0];
         let is_removal = wc.is_removal() && pc.value().is_empty();
         if is_removal {
-            // Not a cookie carrying a session: the statement asks nothing about its protection.
+            // Not a cookie carrying a session: nothing is asked about the protection of its (empty) value. But it is
+            // attached through the same middleware, which "attaches a session cookie only if the cookie processor will sign
+            // or encrypt it; otherwise the request fails and no session cookie is set": with a processor that has no rule at
+            // all for the name, no cookie of that name may leave, removal cookies included.
             self.stats.bump("c12_removal_cookies");
+            if env.case.crypto.promise() == Promise::Plain {
+                return Err(self.violation(
+                    json!({"rule": "cookie_attached_without_any_protection", "cookie": "removal", "crypto": env.case.crypto.label()}),
+                    json!({"request": ri + 1, "set_cookie": wc.raw}),
+                    h,
+                ));
+            }
             // ... but it only removes the stored session cookie if it names the same
             // (name, Domain, Path): these three must be the configured ones, both on the
             // ResponseCookie the session built and on the wire. Nothing else is asserted
